@@ -536,7 +536,7 @@ Proof.
   unfold step_ok. rewrite !andb_true_iff, forallbn_spec. intros [[[Hx Hex] HZx] H].
   split; [now apply Nat.ltb_lt|]. split; [now apply negb_true_iff|]. split; [exact HZx|].
   intros s Hs. specialize (H s Hs). apply andb_true_iff in H as [HE H].
-  split; [now apply eqb_prop|]. split.
+  split; [unfold beqb in HE; destruct (sE st' s), (sE st s || (s =? x)%nat); simpl in HE; congruence|]. split.
   - intros HZ. rewrite HZ in H. rewrite !andb_true_iff in H.
     destruct H as [[[[H1 H2] H3] H4] H5].
     split; [exact H1|]. split; [now apply Nat.ltb_lt|]. split; [exact H3|].
